@@ -41,10 +41,11 @@ INV = ("YieldExactlyOnce", "YieldOnlyTarget", "YieldTrueDistance", "YieldNonDecr
 DEVIATIONS = {   # name in MCGraphQ -> (config kind, smallest graph size that shows it)
     "DevLIFO": ("bfs", 5, 5), "DevStart": ("trav", 1, 3), "DevDirection": ("trav", 1, 4), "DevDirZero": ("trav", 1, 3),
     "DevRing": ("trav", 1, 3), "DevValence": ("trav", 1, 3), "DevNonInduced": ("match", 1, 3), "DevWildcard": ("match", 1, 3),
-    "DevStaleAttr": ("hist", 3, 3), "DevStaleAdj": ("hist", 3, 3),     # memoised conversion / adjacency: histories only
+    "DevStaleAttr": ("hist1", 3, 3), "DevStaleAdj": ("hist1", 3, 3),     # memoised conversion / adjacency: histories only
+    "DevPerHandle": ("hist", 3, 3),                                    # a cache per handle, dropped only by edits through it
 }
 TRACE_CFG = dict(spec="TraceSpec", constants={"MinN": 0, "MaxN": 0, "Elems": "<- NoElems", "PatPool": "<- NoPat",
-                                              "Kinds": "<- NoKinds", "DeclLimit": 700, "MaxEdits": 0, "Deviations": "<- DevNone"})
+                                              "Kinds": "<- NoKinds", "DeclLimit": 700, "MaxEdits": 0, "Handles": "<- NoHandles", "Deviations": "<- DevNone"})
 
 
 def mc_cfg(kind, minn, maxn, dev="DevNone", elems=None):
@@ -52,14 +53,15 @@ def mc_cfg(kind, minn, maxn, dev="DevNone", elems=None):
         c = {"Elems": "<- ElC", "PatPool": "<- NoPat", "Kinds": "<- KTrav"}
     elif kind == "bfs":
         c = {"Elems": "<- ElC", "PatPool": "<- NoPat", "Kinds": "<- KBfs"}
-    elif kind == "hist":
+    elif kind in ("hist", "hist1"):
         c = {"Elems": "<- ElCN", "PatPool": "<- Pat2", "Kinds": "<- KHist"}
     elif kind == "defs":
         c = {"Elems": "<- ElC", "PatPool": "<- NoPat", "Kinds": "<- KDefs"}
     else:
         c = {"Elems": f"<- {elems or 'ElC'}", "PatPool": "<- Pat3", "Kinds": "<- KMatch"}
     return dict(spec="Spec", constants={"MinN": minn, "MaxN": maxn, **c, "DeclLimit": 4096,
-                                        "MaxEdits": 1 if kind == "hist" else 0, "Deviations": f"<- {dev}"},
+                                        "MaxEdits": 1 if kind in ("hist", "hist1") else 0,
+                                        "Handles": "<- HTwo" if kind == "hist" else "<- HOne", "Deviations": f"<- {dev}"},
                 invariants=INV, view="View")
 
 
@@ -80,8 +82,9 @@ def model_runs(ev, tier):
                                  "with <= 3 atoms over {C, N, Unknown}",
                             tag="c15mm", workers=WORKERS, require_actions=("Match",)),
         lambda: model_check(ev, "MCGraphQ", mc_cfg("hist", 3, 3),
-                            role="history model: query, in-place edit (element of an atom / bond added or removed), query again on "
-                                 "every 3-atom graph over {C, N} x patterns with <= 2 atoms; every query is decided on the edited graph",
+                            role="history model: query through one of two handles, edit (element of an atom / bond added or removed) "
+                                 "through either handle, query again through either, on every 3-atom graph over {C, N} x patterns "
+                                 "with <= 2 atoms; every query is decided on the edited graph",
                             tag="c15mh", workers=WORKERS, require_actions=("DoEdit", "Match", "DoBegin", "DoYield")),
     ]
     nmodel = len(jobs)
@@ -149,7 +152,7 @@ def digest(graph_ev, e):
                                       sort_keys=True).encode(), digest_size=8).digest()
 
 
-SETUP_EVENTS = ("graph", "pattern", "edit", "pedit", "edit-raised")     # not queries: a trace stuck there is outside C15
+SETUP_EVENTS = ("graph", "pattern", "open", "edit", "pedit", "edit-raised")     # not queries: a trace stuck there is outside C15
 
 
 class Tally:
@@ -180,13 +183,16 @@ class Tally:
         for e in tr["ev"][1:]:
             if e["ev"] in SETUP_EVENTS:
                 if e["ev"] in ("edit", "pedit"):
-                    k = ("pattern " if e["ev"] == "pedit" else "") + e["op"]
+                    k = ("pattern " if e["ev"] == "pedit" else "") + e["op"] + (f" via {e['via']}" if e.get("via") else "")
                     self.edits[k] = self.edits.get(k, 0) + 1
                 if e["ev"] == "edit":
                     gev = {"ev": "graph", "n": e["n"], "el": e["el"], "bonds": e["bonds"]}
                 continue
             self.events[e["ev"]] = self.events.get(e["ev"], 0) + 1
             d["queries"] += 1
+            if tr.get("hist"):
+                k = f"history query through {e.get('h')}"
+                self.forms[k] = self.forms.get(k, 0) + 1
             if e["ev"] == "bfs":
                 self.yields += len(e["y"])
                 for k in (f"start:{e.get('fs')}", f"direction:{e.get('fd')}"):
@@ -261,14 +267,16 @@ def failing_query(tr, l):
     """Event number l of the trace (1 = the graph) -> the query that produced it."""
     if l is None or l < 2 or l > len(tr["ev"]):
         return None, (tr["ev"][l - 1] if l and 1 <= l <= len(tr["ev"]) else None)
-    if tr.get("hist"):                       # events: graph, pattern, then one per script step
-        return (tr["script"][l - 3] if l >= 3 else None), tr["ev"][l - 1]
+    if tr.get("hist"):                       # events: graph, pattern, open.., then one per script step
+        k = l - 1 - (len(tr["ev"]) - len(tr["script"]))
+        return (tr["script"][k] if k >= 0 else None), tr["ev"][l - 1]
     return tr["queries"][l - 2], tr["ev"][l - 1]
 
 
 def describe_history(t, l):
     e = t["ev"][l - 1]
-    edits = [f"{'pattern ' if x['ev'] == 'pedit' else ''}{x['op']}" + (f"(atom {x['a']} -> {x['e']})" if x["op"] == "relabel" else
+    edits = [f"{'pattern ' if x['ev'] == 'pedit' else ''}{x['op']}" + (f" via {x['via']}" if x.get("via") else "") + (
+             f"({x.get('deco')})" if x["op"] == "attr" else f"(atom {x['a']} -> {x['e']})" if x["op"] == "relabel" else
              f"({x['a']},{x['b']})" if x["op"] == "connect" else f"(bond {x['i']})" if x["op"] in ("delbond", "rebond") else
              f"(atom {x['a']})" if x["op"] in ("delatom", "label") else f"({x['e']})")
              for x in t["ev"][:l - 1] if x["ev"] in ("edit", "pedit")]
@@ -279,7 +287,7 @@ def describe_history(t, l):
                 f"(el={e['pel']}, bonds={t['pattern']['bonds']}) returned {len(e['maps'])} maps {e['maps'][:6]}")
     else:
         what = describe(now, None, e)
-    return f"{t['case'].get('cls')} object after the in-place edits {edits}: {what}"
+    return f"{t['case'].get('cls')} graph after the edits {edits}, asked through handle '{e.get('h')}': {what}"
 
 
 def describe(case, q, e):
@@ -296,9 +304,13 @@ def describe(case, q, e):
     if e["ev"] == "local":
         return f"{g}: atom {e['a']}: connected_atoms={e['nbrs']} bonds_with_atom={e['bonds']} 2*bonded_valence={e['v2']}"
     if e["ev"] == "match":
+        deco = ""
+        if case.get("deco") or (q or {}).get("pat", {}).get("deco"):
+            deco = (f"; attributes that must not matter - target atoms {case.get('deco')}, "
+                    f"pattern atoms {(q or {}).get('pat', {}).get('deco')}")
         return (f"{g} el={case['el']}: {e['api']} of pattern n={e['pn']} el={e['pel']} bonds={e['pb']} ({e['mode']}) "
-                f"returned {len(e['maps'])} maps {e['maps'][:6]}")
-    return f"{g}: {q} raised {e.get('exc')}: {e.get('msg')}"
+                f"returned {len(e['maps'])} maps {e['maps'][:6]}{deco}")
+    return f"{g}: query {q or e.get('q')} raised {e.get('exc')}: {e.get('msg')}"
 
 
 # --------------------------------------------------------------------------------------------------
@@ -428,7 +440,7 @@ def run(tier, seed, replay_path):
         if h["histories"] and h["abandoned_at_edit"] * 2 > h["histories"]:
             raise tlc.MachineryError(f"vacuity guard: most histories were abandoned at an edit: {h}")
         need = [f"{r}:{f}" for r in ("start", "direction", "atom-argument") for f in G.FORMS] + \
-               ["direction passed as the integer 0", "start passed as the integer 0"]
+               ["direction passed as the integer 0", "start passed as the integer 0", "history query through view"]
         if any(tally.forms.get(k, 0) < 20 for k in need):
             raise tlc.MachineryError(f"vacuity guard: an AtomLike form was (almost) never used: {tally.forms}")
         t_lanes = time.time() - t0
@@ -458,7 +470,7 @@ def run(tier, seed, replay_path):
         reported[sig] = 1
         if t.get("hist"):
             rep.violation("graphq-history", {"case": t["case"], "pattern": t["pattern"], "flavour": t["flavour"],
-                                             "script": t["script"][:l - 2], "event": e, "stuck_at": l, "why": why,
+                                             "script": t["script"][:l - (len(t["ev"]) - len(t["script"]))], "event": e, "stuck_at": l, "why": why,
                                              "where": label, "tier": tier, "seed": seed},
                           what=f"no step of GraphQ explains: {describe_history(t, l)}"[:900])
             continue
@@ -504,6 +516,11 @@ def run(tier, seed, replay_path):
         "histories: element / label / bond-type edits in place and connect / del_bond on every class, append_atom / del_atom on "
         "Connectivity only; after an edit the bond-list order is free, atoms keep their relative order; an edit whose visible "
         "result is not the edited graph is reported as a note and the rest of that history is not judged (edits are not C15)",
+        "several handles: an ensemble and two held Conformer views of it (queries and connect / del_bond through any of them), the "
+        "live bond list (append / remove) for every class; all denote the one graph of the specification",
+        "attributes the property does not name (atom type, geometry, label, formal charge / spin, attrib on both sides; isotope, "
+        "stereo descriptor, bond stereo / label / f_order on the target side) are varied independently and must not change a "
+        "match; isotope and stereo of PATTERN atoms, which the matcher documents as query fields, stay at their defaults",
         "trusted: TLC, the Json module, the adapter's position bookkeeping",
     ]
     rep.note(f"{tally.graphs} graphs (max {tally.max_atoms} atoms), {nq} queries {tally.events}, {tally.yields} yields, "
